@@ -424,6 +424,13 @@ class Fn:
             parts = [self.expr(e) for e in node.elts]
             return "(" + ", ".join(p[0] for p in parts) + ")", ('tuple', [p[1] for p in parts])
         if isinstance(node, ast.Subscript):
+            if isinstance(node.value, ast.Name) and isinstance(node.slice, ast.Constant) and isinstance(node.slice.value, str) \
+                    and node.value.id != 'kwargs':
+                # record['key'] of a dict-typed local: a declared input named <record>_<key>
+                v = f"{node.value.id}_{node.slice.value}"
+                if v in self.env:
+                    return san(v), self.env[v]
+                raise TErr(f"{node.value.id}[{node.slice.value!r}] is not a declared input")
             if isinstance(node.value, ast.Name) and node.value.id == 'kwargs' and isinstance(node.slice, ast.Constant):
                 key = node.slice.value
                 if key in self.env:
@@ -513,6 +520,8 @@ class Fn:
         fname = ast.unparse(f)
         if fname in ('min', 'max') and len(node.args) == 2:
             return f"({fname} {self.nat(node.args[0])} {self.nat(node.args[1])})", 'nat'
+        if fname == 'list' and len(node.args) == 1:
+            return self.lst(node.args[0]), 'list'      # a copy: values are immutable here
         if fname == 'len' and len(node.args) == 1:
             return f"{self.lst(node.args[0])}.length", 'nat'
         if fname == 'int' and len(node.args) == 1:
@@ -1179,6 +1188,10 @@ def build(repo):
     for tgt, ln in [('session_num', 'Tp22.dt_session'), ('segment_num', 'Tp22.dt_segment')]:
         attempt(ln, lambda tgt=tgt, ln=ln: expr_unit(tr, D22, '_process_tp_dt', tgt, ln, d))
     attempt('Tp22.num_segments', lambda: expr_unit(tr, D22, 'send_pgn', 'num_segments', 'Tp22.num_segments', [('message_size', 'nat')]))
+    cp = [('cpg_tos', 'nat'), ('cpg_tf', 'nat'), ('cpg_cpgn', 'nat')]
+    for k in range(3):
+        attempt(f'Mpg.hdr{k}', lambda k=k: expr_unit(tr, D22, '__send_multi_pg', 'call:data.append:0', f'Mpg.hdr{k}', cp, k))
+    attempt('Mpg.cpgn_pdu1', lambda: expr_unit(tr, D22, 'send_pgn', 'cpgn', 'Mpg.cpgn_pdu1', [('pgn', ('obj', PGN))], 0))
     for tgt, ln in [('tos', 'Mpg.tos'), ('trailer_format', 'Mpg.tf'), ('cpgn', 'Mpg.cpgn'), ('payload_length', 'Mpg.len')]:
         attempt(ln, lambda tgt=tgt, ln=ln: expr_unit(tr, D22, '_process_multi_pg', tgt, ln, d))
     # --- CA (C13, C14, C04)
